@@ -53,6 +53,17 @@ let esc (s : string) : string =
       else Buffer.add_string b (Printf.sprintf "{%02X}" k)) s;
     Buffer.contents b end
 
+let fnv (s : string) : string =
+  let h = ref (BigZ.of_string "0xcbf29ce484222325") in
+  let p = BigZ.of_string "0x100000001b3" and m = BigZ.sub (BigZ.shift_left BigZ.one 64) BigZ.one in
+  String.iter (fun c ->
+    h := BigZ.logxor !h (BigZ.of_int (Char.code c));
+    h := BigZ.logand (BigZ.mul !h p) m) s;
+  Printf.sprintf "%016s" (BigZ.format "%x" !h) |> String.map (fun c -> if c = ' ' then '0' else c)
+
+let escv (s : string) : string =
+  if String.length s > 2048 then Printf.sprintf "{L%d:%s}" (String.length s) (fnv s) else esc s
+
 (* ---------- case files ---------- *)
 type case = { id : string; header : string list; ops : string list list }
 
@@ -213,7 +224,7 @@ let node_dump (with_addr : bool) (n : node) : string =
       (string_of_cl (strat_to_str d.d_strat)) (z_str d.d_conn));
     let ks = List.sort (fun (a, _) (b, _) -> compare a b) (List.map (fun (k, v) -> (string_of_cl k, v)) d.d_map) in
     Buffer.add_string b (String.concat "," (List.map (fun (k, v) ->
-      let base = Printf.sprintf "%s=%s@%s/%s/%s" (esc k) (sesc v.v_val) (z_str v.v_ver) (state_letter v.v_st) (dec_of_n v.v_opp) in
+      let base = Printf.sprintf "%s=%s@%s/%s/%s" (escv k) (escv (string_of_cl v.v_val)) (z_str v.v_ver) (state_letter v.v_st) (dec_of_n v.v_opp) in
       if with_addr then Printf.sprintf "%s/%s/%s" base (dec_of_n v.v_vaddr) (dec_of_n v.v_kaddr) else base) ks));
     Buffer.add_string b "] watch=[";
     let ws = List.sort (fun (a, _) (b, _) -> compare a b) (List.map (fun (k, l) -> (string_of_cl k, l)) d.d_watch) in
@@ -265,14 +276,6 @@ let run_node (path : string) =
     print_string "E\n") (read_cases path)
 
 (* ---------- node + disk ---------- *)
-let fnv (s : string) : string =
-  let h = ref (BigZ.of_string "0xcbf29ce484222325") in
-  let p = BigZ.of_string "0x100000001b3" and m = BigZ.sub (BigZ.shift_left BigZ.one 64) BigZ.one in
-  String.iter (fun c ->
-    h := BigZ.logxor !h (BigZ.of_int (Char.code c));
-    h := BigZ.logand (BigZ.mul !h p) m) s;
-  Printf.sprintf "%016s" (BigZ.format "%x" !h) |> String.map (fun c -> if c = ' ' then '0' else c)
-
 let fname_suffix = function
   | FKeys -> "-nun.data.keys" | FVals -> "-nun.data.values" | FMeta -> "-nun.madadata"
   | FKeysOld -> "-nun.data.keys.old" | FValsOld -> "-nun.data.values.old"
